@@ -89,50 +89,6 @@ Section RtInd.
 End RtInd.
 
 (* ------------------------------------------------------------------ *)
-(* productions, validity, frontier, yield                              *)
-
-Fixpoint plookup (P : prods) (n : sym) : option (list (list sym)) :=
-  match P with
-  | [] => None
-  | (k, v) :: r => if sym_eqb k n then Some v else plookup r n
-  end.
-
-Definition is_nil {A} (l : list A) : bool := match l with [] => true | _ => false end.
-
-(* [t] is a derivation tree with respect to the productions [P]: an element
-   named by a symbol of [P] is empty for an empty production or an inner
-   element whose children spell one of the symbol's productions; an element of
-   any other name (a symbol defined elsewhere, a token) is not constrained *)
-Fixpoint valid (P : prods) (t : rt) : bool :=
-  match plookup P (rname t) with
-  | None => true
-  | Some alts =>
-      match t with
-      | RNull _ => existsb (syms_eqb []) alts
-      | RNode _ ch => negb (is_nil ch) && existsb (syms_eqb (map rname ch)) alts && forallb (valid P) ch
-      | _ => false
-      end
-  end.
-
-(* the maximal subtrees of symbols that [P] does not define, in source order *)
-Fixpoint frontier (P : prods) (t : rt) : list rt :=
-  match plookup P (rname t) with
-  | None => [t]
-  | Some _ => match t with RNode _ ch => flat_map (frontier P) ch | _ => [] end
-  end.
-
-(* names of the matched tokens, in source order *)
-Fixpoint yield (t : rt) : list sym :=
-  match t with
-  | RTok n _ => [n]
-  | RNull _ => []
-  | RNode _ ch => flat_map yield ch
-  | RSeq _ ch => flat_map yield ch
-  end.
-
-Definition is_tok (t : rt) : bool := match t with RTok _ _ => true | _ => false end.
-
-(* ------------------------------------------------------------------ *)
 (* all_ok                                                              *)
 
 Lemma all_ok_app : forall {A} (l1 l2 : list (res A)),
@@ -293,6 +249,12 @@ Proof. intros P n v a H. simpl. now rewrite H. Qed.
 
 Lemma valid_seq : forall P n ch a, plookup P n = Some a -> valid P (RSeq n ch) = false.
 Proof. intros P n ch a H. simpl. now rewrite H. Qed.
+
+Lemma valid_ext : forall P t, plookup P (rname t) = None -> valid P t = true.
+Proof. intros P t H. destruct t; simpl in *; now rewrite H. Qed.
+
+Lemma syms_existsb : forall names (a : list (list sym)), In names a -> existsb (syms_eqb names) a = true.
+Proof. intros names a H. apply existsb_exists. exists names. split; auto. apply syms_eqb_refl. Qed.
 
 Lemma existsb_syms : forall names (a : list (list sym)), existsb (syms_eqb names) a = true -> In names a.
 Proof.
